@@ -276,6 +276,7 @@ def run(ctx):
         ntr += len(traces)
         if u == UNITS[1]:
             ctx.sample({'kind': 'switch-trace', 'unit_ms': u, 'trace': traces[0]['ev'][:14]})
+        tlc.finish_diagnosis(wd, 'SwitchesTraceU', 'Trace.cfg', traces, v)
         for i, info in sorted(v.rejected.items()):
             fe = info.get('failing_event') or {}
             pe = info.get('prev_event') or {}
